@@ -26,6 +26,7 @@ PLY_PARSE_PARAMS = ('input', 'lexer', 'debug', 'tracking', 'tokenfunc')
 def run(ctx):
     ctx.guard(lexrules.time_rule, ctx, 'C13-TIME', CLS, floor=30)
     ctx.guard(total, ctx)
+    ctx.guard(fresh_lexer, ctx)
     ctx.guard(lexrules.endpos_rule, ctx, 'C13-ENDPOS', CLS, floor=30)
     ctx.guard(lexrules.lineno_rule, ctx, 'C13-LINENO', CLS, floor=30)
     ctx.guard(track, ctx)
@@ -39,6 +40,44 @@ def run(ctx):
             'p_error/t_error and of every token rule (endlexpos, newline counting decided from whether the regex '
             'automaton can consume a newline); decorator coverage of every Node-constructing production; slot table of '
             'the position bookkeeping.' % len(lexrules.grammar_of(ctx.repo, CLS).token_rules))
+
+
+def fresh_lexer(ctx):
+    """positions are counted by the lexer object (lineno, lexpos); every parse starts counting at line 1 because it gets a lexer of its own -
+    or, if a lexer is kept, because its line counter is reset BEFORE the text is parsed (a reset after the parse is skipped when the
+    parse raises)"""
+    repo = ctx.repo
+    r = ctx.rule('C13-FRESHLEX', 'every parse starts with a lexer whose line counter is 1', floor=1, oracle='ply: a lexer object carries lineno across inputs')
+    fn = repo.func(CLS + '.text_input')
+    calls = [n for n in ast.walk(fn) if isinstance(n, ast.Call) and isinstance(n.func, ast.Attribute) and n.func.attr == 'parse']
+    if not calls:
+        raise AnalysisError('%s: text_input no longer calls <parser>.parse' % loc(fn))
+    for c in calls:
+        lx = None
+        for k in c.keywords:
+            if k.arg == 'lexer':
+                lx = k.value
+        if lx is None and len(c.args) >= 2:
+            lx = c.args[1]
+        if lx is None:
+            r.violation('text_input parses without handing a lexer of its own to the parser (ply then uses the last lexer built anywhere, with '
+                        'whatever line count it has reached)', c, construct=CLS + '.text_input', key='no-lexer')
+            continue
+        made_here = isinstance(lx, ast.Call) and dotted(lx.func) in ('lex.lex', 'ply.lex.lex') or (
+            isinstance(lx, ast.Name) and any(isinstance(a, ast.Assign) and any(isinstance(t, ast.Name) and t.id == lx.id for t in a.targets) and
+                                             isinstance(a.value, ast.Call) and dotted(a.value.func) in ('lex.lex', 'ply.lex.lex') and a.lineno < c.lineno
+                                             for a in ast.walk(fn)))
+        cloned = isinstance(lx, ast.Call) and isinstance(lx.func, ast.Attribute) and lx.func.attr == 'clone' or (
+            isinstance(lx, ast.Name) and any(isinstance(a, ast.Assign) and any(isinstance(t, ast.Name) and t.id == lx.id for t in a.targets) and
+                                             isinstance(a.value, ast.Call) and isinstance(a.value.func, ast.Attribute) and a.value.func.attr == 'clone'
+                                             for a in ast.walk(fn)))
+        reset_before = any(isinstance(a, ast.Assign) and any(src(t) == src(lx) + '.lineno' for t in a.targets) and isinstance(a.value, ast.Constant) and
+                           a.value.value == 1 and a.lineno < c.lineno for a in fn.body)
+        r.check(made_here or reset_before, 'text_input parses with a lexer built for this call (or reset to line 1 before parsing)', c,
+                construct=CLS + '.text_input', key='lexer-state',
+                msg='text_input parses with the lexer `%s`, which outlives the call%s, and does not set its line counter to 1 before parsing: after a text '
+                    'that was rejected (the parse raised) or that simply had several lines, the positions of the next text are shifted'
+                    % (src(lx), ' (a clone keeps the line count of its origin)' if cloned else ''))
 
 
 def total(ctx):
